@@ -74,7 +74,12 @@ func WalkMD(doc string, opts ...gtree.Option) ([]model.Row, Outcome) {
 	rec := NewRowRec()
 	o := Guard(func() error { return gtree.WalkFromMarkdown(MDReader(doc), rec.Callback, opts...) })
 	rec.Seal(&o)
-	return rec.Rows, o
+	// a massive-mode walk that ends in an error returns while a worker may still be inside the
+	// callback: take the recorder's own lock for the copy
+	rec.mu.Lock()
+	rows := append([]model.Row(nil), rec.Rows...)
+	rec.mu.Unlock()
+	return rows, o
 }
 
 type jrec struct {
